@@ -121,9 +121,6 @@ func isTimeTime(t types.Type) bool {
 
 // sortOf maps a Go scalar type to an SMT sort.
 func sortOf(t types.Type) (Sort, bool) {
-	if isDuration(t) {
-		return SInt, true
-	}
 	b, ok := t.Underlying().(*types.Basic)
 	if !ok {
 		return Sort{}, false
